@@ -33,7 +33,7 @@ def bhe_and_radial(params=None):
     return bhe, rn
 
 
-def make_hybrid(loads, n_months, params=None, years=None, start_month=1):
+def make_hybrid(loads, n_months, params=None, years=None, start_month=1, raw=False):
     """n_months = number of simulated months; with start_month s the tool's end_month is s + n_months - 1"""
     from ghedesigner.ground_loads import HybridLoad
     from ghedesigner.simulation import SimulationParameters
@@ -42,7 +42,7 @@ def make_hybrid(loads, n_months, params=None, years=None, start_month=1):
     sp = SimulationParameters(start_month, start_month + n_months - 1, 35.0, 5.0, 135.0, 60.0)
     with warnings.catch_warnings():
         warnings.simplefilter("ignore")
-        return HybridLoad(list(loads), bhe, rn, sp, years=years or [2019])
+        return HybridLoad(loads if raw else list(loads), bhe, rn, sp, years=years or [2019])  # raw: the caller's own object, not a copy
 
 
 def month_energies(hl, n_months, month_ends, first=0):
